@@ -230,13 +230,16 @@ static void evt_barrier(int kind, void *addr) { (void) kind; (void) addr; }
 #ifdef BARRIER_PART
 /* _call_rcu through a contract that logs the marker */
 unsigned long G_markers; struct call_rcu_data *G_marker_crdp[3]; void *G_marker_func[3]; struct rcu_head *G_marker_head[3];
-unsigned long G_marker_lock_held[3];
+unsigned long G_marker_lock_held[3]; long G_marker_cnt[3], G_marker_ref[3];
+#define WORK_OF(h) ((struct call_rcu_completion_work *) ((char *) (h) - __builtin_offsetof(struct call_rcu_completion_work, head)))
 static void _call_rcu(struct rcu_head *head, void (*func)(struct rcu_head *head), struct call_rcu_data *crdp)
 __CPROVER_requires(G_markers < 3)
-__CPROVER_assigns(G_markers, G_marker_crdp[G_markers], G_marker_func[G_markers], G_marker_head[G_markers], G_marker_lock_held[G_markers])
+__CPROVER_assigns(G_markers, G_marker_crdp[G_markers], G_marker_func[G_markers], G_marker_head[G_markers], G_marker_lock_held[G_markers], G_marker_cnt[G_markers], G_marker_ref[G_markers])
 __CPROVER_ensures(G_markers == __CPROVER_old(G_markers) + 1)
 __CPROVER_ensures(G_marker_crdp[__CPROVER_old(G_markers)] == crdp && G_marker_func[__CPROVER_old(G_markers)] == (void *) func && G_marker_head[__CPROVER_old(G_markers)] == head)
 __CPROVER_ensures(G_marker_lock_held[__CPROVER_old(G_markers)] == (unsigned long) OS_HELD(&call_rcu_mutex))
+/* the completion the marker belongs to, as it is when the marker becomes visible to a helper */
+__CPROVER_ensures(G_marker_cnt[__CPROVER_old(G_markers)] == (long) WORK_OF(head)->completion->barrier_count && G_marker_ref[__CPROVER_old(G_markers)] == WORK_OF(head)->completion->ref.refcount)
 ;
 /* the wait: contract = C02-style partial correctness (returns only after the futex left -1); here it also lets the
  * helpers complete: the barrier count reaches 0 */
@@ -257,16 +260,18 @@ static void evt_barrier(int kind, void *addr)
 	if (kind == EV_LOAD && E_dec_seen && E_mb_since_dec) E_count_load_ok = 1;
 }
 struct call_rcu_data HB[2];
-unsigned long in_helpers, in_incs, in_count;
+unsigned long in_helpers, in_incs, in_count, in_tls;
 void h_barrier(void)
 {
 	unsigned long n, k;
-	VIN(unsigned long, in_helpers); VIN(unsigned long, in_incs);
+	VIN(unsigned long, in_helpers); VIN(unsigned long, in_incs); VIN(unsigned long, in_tls);
 	n = in_helpers % 3;
 	CDS_INIT_LIST_HEAD(&call_rcu_data_list);
 	for (k = 0; k < 2; k++) { q_init(&HB[k]); if (k < n) cds_list_add_tail(&HB[k].list, &call_rcu_data_list); }
 	URCU_TLS(rcu_reader).ctr = (in_incs & 1) ? (rcu_gp.ctr | 1) : 0;	/* called from inside a read-side critical section? */
 	URCU_TLS(rcu_reader).registered = 1;
+	/* the caller may itself own a per-thread helper (set_thread_call_rcu_data): its callbacks must be waited for too */
+	URCU_TLS(thread_call_rcu_data) = (in_tls % 3 == 0) ? 0 : &HB[in_tls % 3 - 1];
 	G_markers = 0; G_waits = 0; G_wait_bad = 0; G_free_calls = 0; G_crdp = 0; E_dec_seen = E_mb_since_dec = E_count_load_ok = 0;
 	rcu_barrier();
 	if (in_incs & 1) {
@@ -276,13 +281,14 @@ void h_barrier(void)
 		for (k = 0; k < 2; k++) if (k < n) {
 			VERIF_ASSERT(G_marker_crdp[k] == &HB[k] && G_marker_func[k] == (void *) _rcu_barrier_complete, "rcu_barrier: marker k is queued on helper k with _rcu_barrier_complete");
 			VERIF_ASSERT(G_marker_lock_held[k] == 1, "rcu_barrier: markers are queued while holding call_rcu_mutex (the set of helpers cannot change in between)");
+			VERIF_ASSERT(G_marker_cnt[k] == (long) n && G_marker_ref[k] == (long) n + 1, "rcu_barrier: the completion counts EVERY listed helper (including a helper owned by the caller) and holds one reference per helper plus the caller's, before the first marker becomes visible");
 		}
 		VERIF_ASSERT(n < 2 || G_marker_head[0] != G_marker_head[1], "rcu_barrier: each marker has its own rcu_head");
 		VERIF_ASSERT(!G_wait_bad, "rcu_barrier: sleeps only after futex decrement -> full barrier -> barrier_count seen non-zero, and with call_rcu_mutex released");
 		VERIF_ASSERT(n == 0 ? G_waits == 0 : G_waits <= 1, "rcu_barrier: no wait when there is no helper");
 		VERIF_ASSERT(G_os_locks_held == 0, "rcu_barrier: call_rcu_mutex released");
 	}
-	VERIF_COVER(n == 2 && !(in_incs & 1)); VERIF_COVER(n == 0 && !(in_incs & 1)); VERIF_COVER(in_incs & 1);
+	VERIF_COVER(n == 2 && !(in_incs & 1) && in_tls % 3 == 2); VERIF_COVER(n == 0 && !(in_incs & 1)); VERIF_COVER(in_incs & 1); VERIF_COVER(n == 1 && in_tls % 3 == 1 && !(in_incs & 1));
 }
 /* _rcu_barrier_complete: run by a helper for its marker */
 void h_barrier_complete(void)
